@@ -865,6 +865,13 @@ func (in *Interp) builtin(b *ssa.Builtin, args []Value, ins *ssa.Call, st *State
 			}
 		}
 		if bt, ok := ins.Type().Underlying().(*types.Basic); ok && bt.Info()&types.IsInteger != 0 {
+			// decided by the facts of the path: the operand itself
+			if lt, known := Decide(st, BinOp(token.LSS, args[0], args[1], types.Typ[types.Bool])); known {
+				if lt == isMin {
+					return args[0]
+				}
+				return args[1]
+			}
 			// a fresh term bounded by both operands (and, where both have the opposite bound, by the weaker of them)
 			r := NewSym(ins.Type(), b.Name(), args...)
 			op := token.LEQ
